@@ -295,7 +295,9 @@ def handle (j : J) : J :=
     | _, _, _, _, _ => bad "codec_opts"
   | some "load" =>
     match (j.get? "env").bind envOfJ, (j.get? "json").bind jvOfJ, j.getBool? "ap" with
-    | some env, some jv, some ap => .obj [("rt", resToJ (fromJson env ap jv))]
+    | some env, some jv, some ap =>
+      if (j.getBool? "auto_dict").getD false then .obj [("rt", resToJ (fromJsonAuto env ap jv))]
+      else .obj [("rt", resToJ (fromJson env ap jv))]
     | _, _, _ => bad "load"
   | some "load_str" =>
     match (j.get? "env").bind envOfJ, (j.get? "json").bind jsOfJ, j.getBool? "ap" with
